@@ -3,4 +3,4 @@ From M Require Import base.ExtractBase gen.Consts model.UdpProto.
 Extraction Language OCaml.
 Extraction "model.ml"
   xb_zadd xb_zmul xb_zdiv xb_zmod xb_zopp xb_zltb xb_nadd xb_nmul xb_ndiv xb_nmod xb_z_of_n xb_n_of_z xb_n_of_nat xb_nat_of_n xb_keep
-  acc_step a0 accept late_step l0 txCountLimit.
+  acc_step a0 accept late_step late_init txCountLimit.
